@@ -86,3 +86,10 @@ Fixpoint tx_agent (recipient : bool) (rows : list (string * string)) (oks : list
   | r :: rows', ok :: oks' => tx_agent recipient rows' oks' (tx_row recipient ok r st)
   | _, _ => st
   end.
+
+(* ------------------------------------------------------------------ Dx.administer: one agent.  The result starts at the default (the last category
+   of the hierarchy) and, for every (disease, state) of the product table the agent is in, is lowered to the category drawn for that state *)
+Definition dx_step (acc : nat) (r : bool * nat) : nat := if fst r then Nat.min (snd r) acc else acc.
+Definition dx_agent (default : nat) (rows : list (bool * nat)) : nat := fold_left dx_step rows default.
+(* the dictionary returned: agents of `uids` grouped by result category *)
+Definition dx_group (k : nat) (res : list (nat * nat)) : list nat := map fst (filter (fun ur => Nat.eqb (snd ur) k) res).
